@@ -77,6 +77,7 @@ structure BoundaryCase where
   facets  : List (Option FacetCase)
   border  : Jinns.Boundary.Border
   hasTime : Bool
+  grid    : Bool
   utab    : Tab
   jtab    : JTab
 
@@ -123,7 +124,10 @@ def parseBoundary (j : Json) (hasTime : Bool) : Except String BoundaryCase := do
   let border ← parseRat3 (← j.getObjVal? "border")
   let utab ← getTab j "utab"
   let jtab ← parseJTab (← j.getObjVal? "jtab")
-  pure { w := w, global := glob, facets := facets, border := border, hasTime := hasTime,
+  let grid := match j.getObjVal? "grid" with
+    | .ok (.bool g) => g
+    | _ => false
+  pure { w := w, global := glob, facets := facets, border := border, hasTime := hasTime, grid := grid,
          utab := utab, jtab := jtab }
 
 def parseObs (j : Json) (sliceSol : Slice) : Except String (ObsCfg Nat String) := do
@@ -134,6 +138,13 @@ def parseObs (j : Json) (sliceSol : Slice) : Except String (ObsCfg Nat String) :
   let observed ← obsd.mapM fun e => do
     let (k, v) ← parsePair e
     pure (← k.getStr?, ← ratList v)
+  let pbatch ← (match optField j "pbatch" with
+    | none => pure []
+    | some pb => do
+      let l ← pb.getArr?
+      l.toList.mapM fun e => do
+        let (k, v) ← parsePair e
+        pure (← k.getStr?, ← ratList v))
   let n ← getNat j "n"
   let vals ← getRatMat j "vals"
   let ut ← getArr j "utab"
@@ -144,11 +155,11 @@ def parseObs (j : Json) (sliceSol : Slice) : Except String (ObsCfg Nat String) :
     else throw "obs utab entry: expected [i, params, value]"
   -- every (row, row parameters) the model will ask for must be in the table
   for i in List.range n do
-    let p := rowParams caller observed i
+    let p := obsRowParams caller pbatch observed i
     if (utab.lookup (i, p)).isNone then
       throw s!"obs: no table entry for row {i} with parameters {p.map fun kv => (kv.1, showRat kv.2)}"
   pure { w := w, u := fun i p => (utab.lookup (i, p)).getD [], sliceSol := sliceSol,
-         obsSlice := obsSlice, caller := caller, observed := observed,
+         obsSlice := obsSlice, caller := caller, pbatch := pbatch, observed := observed,
          ins := fun i => i, vals := fun i => vals.getD i [], n := n }
 
 def parseLossCase (j : Json) : Except String LossCase := do
@@ -209,13 +220,15 @@ def BoundaryCase.check (b : BoundaryCase) : Except String Unit := do
     match fc with
     | none => pure ()
     | some f =>
-      let pts := Jinns.Boundary.facetPts b.border k
+      let rows := Jinns.Boundary.facetPts b.border k
+      let pts := if b.grid then Jinns.Boundary.gridPts (Jinns.Boundary.nCoords b.border) rows else rows
       requireKeys s!"boundary f (facet {k})" f.ftab pts
       requireKeys "boundary u" b.utab pts
       requireKeys "boundary jac" b.jtab pts
 
 def BoundaryCase.value (b : BoundaryCase) : Rat :=
-  Jinns.Boundary.boundary b.w b.spec b.hasTime (tabFn b.utab) (jtabFn b.jtab) b.border
+  if b.grid then Jinns.Boundary.boundarySpinn b.w b.spec b.hasTime (tabFn b.utab) (jtabFn b.jtab) b.border
+  else Jinns.Boundary.boundary b.w b.spec b.hasTime (tabFn b.utab) (jtabFn b.jtab) b.border
 
 def odeTermsJ (t : OdeTerms) : List (String × Rat) :=
   [("dyn_loss", t.dyn), ("initial_condition", t.ic), ("observations", t.obs)]
